@@ -203,15 +203,9 @@ fn vertical_order(a: &ISeg, b: &ISeg) -> Option<bool> {
             }
         }
         (false, true) => vertical_order(b, a).map(|x| !x),
-        (true, true) => {
-            if a.r.y < b.l.y {
-                Some(true)
-            } else if b.r.y < a.l.y {
-                Some(false)
-            } else {
-                None
-            }
-        }
+        // two vertical segments on one abscissa are never in the sweep line at the same time unless they
+        // overlap (the lower one's right event precedes the upper one's left event): no claim
+        (true, true) => None,
     }
 }
 
